@@ -61,6 +61,17 @@ Section Inv.
       destruct (enc iv2 p). reflexivity.
   Qed.
 
+  (* the plaintext frames of a connection: every frame handed to send, encoded with the time it was sent at *)
+  Definition plains (tss : list (Z * Z)) (fs : list (list msg)) : list (list N) :=
+    map (fun tf => encode (fst tf) (snd tf)) (combine tss fs).
+  Lemma plains_snoc tss fs ts f : length tss = length fs -> plains (tss ++ [ts]) (fs ++ [f]) = plains tss fs ++ [encode ts f].
+  Proof.
+    intro H. unfold plains.
+    assert (C : forall (a : list (Z * Z)) (b : list (list msg)), length a = length b -> combine (a ++ [ts]) (b ++ [f]) = combine a b ++ [(ts, f)]).
+    { induction a as [|x a IH]; intros [|y b] L; cbn in *; try lia; [reflexivity|]. rewrite IH by lia. reflexivity. }
+    rewrite C by exact H. rewrite map_app. reflexivity.
+  Qed.
+
   Fixpoint gate (tr : list event) : Prop :=
     match tr with
     | [] => True
@@ -72,13 +83,14 @@ Section Inv.
 
   (* the ciphertexts on connection j are the chain, from iv0, of some plaintexts, one per frame sent on j *)
   Definition TInv (tr : list event) (nxt : nat) : Prop :=
-    (forall j, exists ps, length ps = length (frames_on j tr) /\ writes_on j tr = fst (chain iv0 ps)) /\
+    (forall j, exists tss, length tss = length (frames_on j tr) /\ writes_on j tr = fst (chain iv0 (plains tss (frames_on j tr)))) /\
     (forall j, (nxt <= j)%nat -> frames_on j tr = [] /\ writes_on j tr = []) /\
     gate tr /\ (forall j, first_ok j tr).
   Definition CInv (s : cstate) (c : option nat) (tr : list event) (nxt : nat) : Prop :=
     match c with
     | Some j => (j < nxt)%nat /\
-                (exists ps, length ps = length (frames_on j tr) /\ writes_on j tr = fst (chain iv0 ps) /\ eiv s = snd (chain iv0 ps)) /\
+                (exists tss, length tss = length (frames_on j tr) /\ writes_on j tr = fst (chain iv0 (plains tss (frames_on j tr))) /\
+                             eiv s = snd (chain iv0 (plains tss (frames_on j tr)))) /\
                 (authed s = true -> In (EvGranted msg j) tr /\ frames_on j tr <> [])
     | None => authed s = false
     end.
@@ -172,13 +184,13 @@ Section Inv.
     { unfold w4, w3, w2, w1, Client.emit, Client.log. repeat (destruct (_ <=? _)); cbn; exact Ec. }
     destruct (on_write E m e1 ct) as [[e' ok] d].
     destruct HI4 as [T C]. pose proof T as (H1 & H2 & H3 & H4). rewrite Hc4 in C. cbn [CInv] in C.
-    destruct C as (Hj & (ps & Hlen & Hw & Hiv) & Hau).
+    destruct C as (Hj & (tss & Hlen & Hw & Hiv) & Hau).
     destruct ((dur d <=? send_to)%Z && ok).
     - intros [= <- <- <-]. split; [|auto]. split; cbn [out next cur Client.upd app].
       + split; [|split; [|split]].
         * intro k. cbn [writes_on frames_on]. destruct (Nat.eqb_spec j k) as [<-|Hne]; [|apply H1].
-          exists (ps ++ [encode ts ms]). rewrite !app_length, Hlen. split; [reflexivity|].
-          rewrite chain_snoc. cbn [fst]. rewrite <- Hiv, Ee, Hw. reflexivity.
+          exists (tss ++ [ts]). rewrite !app_length, Hlen. split; [reflexivity|].
+          rewrite plains_snoc by exact Hlen. rewrite chain_snoc. cbn [fst]. rewrite <- Hiv, Ee, Hw. reflexivity.
         * intros k Hk. change (next msg E w3) with (next msg E w4) in Hk. cbn [writes_on frames_on]. destruct (Nat.eqb_spec j k); [lia|]. apply H2, Hk.
         * cbn [gate]. split; [|exact H3]. destruct Hallow as [->|Ha]; [left; reflexivity|right; apply Hau, Ha].
         * intro k. unfold first_ok. cbn [frames_on]. destruct (Nat.eqb_spec j k) as [<-|Hne]; [|apply H4].
@@ -186,8 +198,8 @@ Section Inv.
           destruct (frames_on j (out msg E w4)) as [|f0 fr] eqn:Ef; cbn [app]; [|exact H4].
           destruct Hallow as [->|Ha]; [reflexivity|]. destruct (Hau Ha) as [_ Hne]. congruence.
       + cbn [CInv authed eiv frames_on writes_on]. rewrite Nat.eqb_refl. split; [exact Hj|]. split.
-        * exists (ps ++ [encode ts ms]). rewrite !app_length, Hlen. split; [reflexivity|].
-          rewrite chain_snoc. cbn [fst snd]. rewrite <- Hiv, Ee, Hw. auto.
+        * exists (tss ++ [ts]). rewrite !app_length, Hlen. split; [reflexivity|].
+          rewrite plains_snoc by exact Hlen. rewrite chain_snoc. cbn [fst snd]. rewrite <- Hiv, Ee, Hw. auto.
         * intro Ha. split; [right; right; apply Hau, Ha|]. destruct (frames_on j (out msg E w4)); discriminate.
     - set (wf := upd w4 (Some j) (next msg E w4) e' (clock msg E w4 + Z.min (dur d) send_to)%Z [EvWriteFail msg j]).
       assert (Tf : TInv (out msg E wf) (next msg E wf)) by (cbn [wf out next Client.upd app]; apply tinv_quiet; [exact I|exact T]).
@@ -345,7 +357,7 @@ Section Inv.
 
   Corollary C06_sessions calls e l j :
     let tr := out msg E (snd (run (init_state iv0) (init_world msg E e l) calls)) in
-    exists ps, length ps = length (frames_on j tr) /\ writes_on j tr = fst (chain iv0 ps).
+    exists tss, length tss = length (frames_on j tr) /\ writes_on j tr = fst (chain iv0 (plains tss (frames_on j tr))).
   Proof. exact (proj1 (all_histories calls e l) j). Qed.
 
   Corollary C09_gate calls e l :
